@@ -34,7 +34,12 @@ def run(ctx):
         nrs += len(rs)
         if first_scn is None:
             first_scn, first_meta = scns[0], [m["sched"] for m in meta[:12]]
+        if bi == 0:
+            import drift
+            drift.with_steps(rs, every=max(1, -(-len(rs) // (300 if q else 2000))))
         files = streams.run_rec(ctx, exe, rs, "c03_%d" % bi)
+        if bi == 0:
+            acc = drift.check(ctx, files)
         rows = wirecheck.rows_from_traces(ctx, files, rs, meta)
         t, d, bad = wirecheck.judge(ctx, rows, ["Invariance", "Fidelity"])
         total += t; distinct += d
@@ -50,6 +55,7 @@ def run(ctx):
     # corpus captures: every schedule of a capture must give the dump of its original chunking (invariance only; no Expected for captures)
     vac = None if total >= nrs * 0.95 else "judged %d rows for %d executions" % (total, nrs)
     vlib.finish(ctx, "model_checking", {
+        "model_acceptance": acc,
         "states": gdistinct, "transitions": max(ggenerated, 1), "traces_validated_against_impl": total,
         "evaluations": total, "distinct_nontrivial": distinct,
         "rule": "for %d HtpWire exchanges (1 and 2 pipelined messages each): EVERY single cut of the request stream and of the response stream, one byte per call, random multi-cuts and "
